@@ -20,7 +20,7 @@ VERIF = os.path.dirname(os.path.dirname(os.path.abspath(__file__)))
 if VERIF not in sys.path:
     sys.path.insert(0, VERIF)
 
-from harness import run, scenario, tracecheck, tlc, genmc, replay_model, families, run_api, funcs  # noqa: E402
+from harness import run, scenario, tracecheck, tlc, genmc, replay_model, families, run_api, funcs, macro  # noqa: E402
 from harness.world import HarnessError  # noqa: E402
 
 NCPU = int(os.environ.get("VERIF_JOBS", "16"))
@@ -88,6 +88,12 @@ def drv_scn(scn, seed):
     tr = run.run_hpc(scn, seed)
     tr["driver"] = ["scn", scn, seed]
     return tr
+
+
+def drv_macro(seed, gen_kw, maxb):
+    rng = random.Random(seed)
+    scn = scenario.gen(rng, **gen_kw)
+    return macro.MacroRun(scn, seed, maxb).run()
 
 
 def drv_model_replay(scn, path, maxb, elog):
@@ -305,7 +311,7 @@ def drv_random_nodefaults(seed, gen_kw):
     return tr
 
 
-DRIVERS = {"pipeline": drv_pipeline, "resubmit_scn": drv_resubmit_scn, "resubmit": drv_resubmit, "resubmit_incomplete": drv_resubmit_incomplete, "hooks": drv_hooks, "cancel": drv_cancel, "random_cancel": drv_random_cancel, "fault": drv_fault, "random_nodefaults": drv_random_nodefaults, "cluster": drv_cluster, "results": drv_results, "random_hpc": drv_random_hpc, "scn": drv_scn, "model_replay": drv_model_replay,
+DRIVERS = {"macro": drv_macro, "pipeline": drv_pipeline, "resubmit_scn": drv_resubmit_scn, "resubmit": drv_resubmit, "resubmit_incomplete": drv_resubmit_incomplete, "hooks": drv_hooks, "cancel": drv_cancel, "random_cancel": drv_random_cancel, "fault": drv_fault, "random_nodefaults": drv_random_nodefaults, "cluster": drv_cluster, "results": drv_results, "random_hpc": drv_random_hpc, "scn": drv_scn, "model_replay": drv_model_replay,
            "batching_input": drv_batching_input, "dry_pair": drv_dry_pair, "first_round": drv_first_round}
 
 
@@ -445,6 +451,63 @@ class Ctx:
                                  "path": uniq[0]["path"][:60]})
         self.judge(traces, "replays of JadeImpl behaviours")
         return res
+
+    def backward_conformance(self, n, gen_kw=None, maxb=6, salt=0):
+        """Code -> model: random runs of the real code (random scenarios, random schedules at the granularity of the
+        model's visible operations) must be behaviours of JadeImpl: TLC (JadeImplPath) drives the model along each
+        recorded sequence of operations, and the events the model emits must equal the events observed."""
+        from concurrent.futures import ThreadPoolExecutor
+        kw = dict(n_min=2, n_max=5, groups_max=2)
+        kw.update(gen_kw or {})
+        traces = run_tasks([("macro", (s, kw, maxb)) for s in seeds(self, n, 900 + salt)])
+        good = [t for t in traces if not t["bad"]]
+        conf = self.extra.setdefault("backward_conformance", {"runs": 0, "out_of_model_bounds": 0, "followed": 0, "stuck": 0,
+                                                               "event_diffs": 0})
+        conf["runs"] += len(traces)
+        conf["out_of_model_bounds"] += len(traces) - len(good)
+        shards = max(1, min(NCPU, len(good) // 12))
+        files = []
+        for k in range(shards):
+            part = [{"id": i, "scn": scenario.tla_scn(t["scn"], str(i)), "path": t["labels"]} for i, t in enumerate(good) if i % shards == k]
+            path = os.path.join(VERIF, "out", f"paths_{os.getpid()}_{k}.json")
+            with open(path, "w") as f:
+                json.dump(part, f)
+            files.append((path, part))
+        with ThreadPoolExecutor(max_workers=shards) as ex:
+            results = list(ex.map(lambda fp: tlc.run_tlc("JadeImplPath", cfg="JadeImplPath.cfg", workers=1,
+                                                          env={"TRACE_FILE": fp[0]}, timeout=3000), files))
+        states = 0
+        for (path, part), res in zip(files, results):
+            os.remove(path)
+            out = res["out"]
+            if res["rc"] != 0 or "Model checking completed" not in out:
+                raise tlc.TlcError("JadeImplPath failed:\n" + tlc_digest(out) + out[-1500:])
+            states += res["distinct"]
+            at = {}
+            for mm in re.finditer(r'<<"AT", (\d+), (\d+)>>', out):
+                at[int(mm.group(1))] = max(at.get(int(mm.group(1)), 0), int(mm.group(2)))
+            fol = {}
+            for line in out.split("\n"):
+                mm = re.match(r'^<<"FOLLOWED", "(.*)">>\s*$', line.strip())
+                if mm:
+                    d = json.loads(json.loads('"' + mm.group(1) + '"'))
+                    fol[int(d["id"])] = d["elog"]
+            for k, pth in enumerate(part):
+                tr = good[pth["id"]]
+                if pth["id"] in fol:
+                    conf["followed"] += 1
+                    diff = replay_model.compare(fol[pth["id"]], tr, tr["sync"])
+                    if diff:
+                        conf["event_diffs"] += 1
+                        self.notes.append("model-drift (code->model): events differ: " + json.dumps(diff)[:300])
+                else:
+                    conf["stuck"] += 1
+                    pos = at.get(k + 1, 0)
+                    self.notes.append("model-drift (code->model): JadeImpl cannot follow the recorded run beyond step "
+                                      f"{pos}: {json.dumps(pth['path'][max(0, pos - 1):pos + 2])}")
+        self.models.append({"name": "JadeImplPath (recorded runs of the real code followed by JadeImpl)", "module": "JadeImplPath",
+                            "states": states, "transitions": states, "ok": True, "mode": "trace following"})
+        self.judge(good, "random runs at visible-operation granularity (also validated against the monitor)")
 
     def impl_liveness(self, name, scns, maxb=3, maxuser=4, fixed=None):
         """C05's eventual completion on JadeImpl: FairSpec (weak fairness on every process step, batch start, job exit and
@@ -629,6 +692,7 @@ def protocol_suite(ctx, n_quick=400, n_thorough=4000, gen_kw=None, salt=0):
     kw.update(gen_kw or {})
     tasks = [("random_hpc", (s, kw)) for s in seeds(ctx, n_quick if q else n_thorough, salt)]
     ctx.judge(run_tasks(tasks), "random HPC submissions")
+    ctx.backward_conformance(160 if q else 2500, salt=salt)
     bl, dt = delay_sweep_tasks(ctx, delay_bases(), cap=450 if q else None)
     ctx.judge(bl + run_tasks(dt), "single-delay sweep of base schedules (each process held at each of its operations)")
 
